@@ -50,7 +50,8 @@ REQUIRED_MONITORS = ["grad_compared", "grad_compared_density_outputs", "scf_back
                      "picard_calls", "rho1_backward_calls", "rho2_backward_calls", "degen_symeig_backward_calls",
                      "force_dirs_compared", "hessian_entries_compared", "rho_hook_checked",
                      "grad_compared_atom_on_hpp_floor", "repeat_grad_compared",
-                     "grad_compared_with_zero_valued_entries_fd_nonzero"]
+                     "grad_compared_with_zero_valued_entries_fd_nonzero",
+                     "evaluations_after_inplace_update_of_persistent_leaves"]
 CASE_TIMEOUT = 900.0
 # cases not started by then are skipped and reported (VERIF_C07_BUDGET overrides, for runs on a loaded machine)
 BUDGET_S = {"quick": float(os.environ.get("VERIF_C07_BUDGET", 200)), "thorough": float(os.environ.get("VERIF_C07_BUDGET", 1700))}
@@ -205,6 +206,13 @@ def gen_cases(tier, seed):
         head.append({"kind": "param", "mol": mol, "method": method, "geom_seed": int(g.integers(0, 2**31)), "sigma": 0.05,
                      "names": nm, "configs": cfgs, "zero_entries": True, "zero_init": zi,
                      "dir_seed": int(g.integers(0, 2**31))})
+    # --- training-loop cells: persistent leaf tensors for ALL learned names, updated in place between evaluations
+    tr = [("H2O", "AM1", 0), ("CH2O", "PM3", 1), ("NH3", "MNDO", 2), ("H2O", "PM3", 1)]
+    if tier == "thorough":
+        tr += [("HCN", "AM1", 1), ("H2S", "PM6_SP", 0)]
+    for mol, method, sb in tr:
+        head.append({"kind": "train", "mol": mol, "method": method, "sb": sb, "sigma": 0.05,
+                     "geom_seed": int(g.integers(0, 2**31)), "dir_seed": int(g.integers(0, 2**31))})
     # --- repeat cells: one Molecule / Energy object evaluated three times (nudged in place, P0 = previous density)
     rep = [(["H2O"], "AM1", 1, True), (["CH2O", "CH2O"], "PM3", 2, False), (["H2O", "NH3"], "AM1", 1, False)]
     if tier == "thorough":
@@ -1420,6 +1428,165 @@ def _run_repeat(case):
                     "n_violations_total": len(viol)}}
 
 
+# -----------------------------------------------------------------------------------------
+def _run_train(case):
+    """Training-loop sequence: ONE set of persistent leaf tensors for all learned names; evaluate -> in-place update
+    (torch.optim.SGD step) -> evaluate again (3 rounds).  After every in-place update the outputs and the gradients of
+    the evaluation with the persistent leaves must equal (a) an evaluation with brand-new tensors holding the same
+    values and (b) finite differences."""
+    import torch
+
+    C = _W["C"]
+    mon0 = dict(C)
+    Z, X, q, m = _geom(case)
+    method, sb = case["method"], case["sb"]
+    nat = len(Z)
+    names = [n for n in _NAMES[method] if n != "EISOL"]
+    base = _table(method, Z, names)
+    names = [n for n in names if float(base[n].abs().max()) > 0]
+    g = np.random.default_rng(case["dir_seed"])
+    conv = [1]
+    sett = lambda: _sett(method, names, sb, conv)
+    theta = {n: base[n].clone().requires_grad_(True) for n in names}       # persistent leaves
+    opt = None
+    viol, margins = [], {}
+    norb_c = None
+    ncomp = [0]
+
+    def upd(name, ratio):
+        ratio = _fin(ratio)
+        if name not in margins or ratio > margins[name]:
+            margins[name] = ratio
+
+    def scal(out):
+        return {"Etot": out["Etot"], "Hf": out["Hf"], "gap": out["gap"], "emo": (out["e"] * cvec["emo"]).sum(),
+                "q": (out["q"] * cvec["q"]).sum()}
+
+    cvec = None
+    outs = ["Etot", "Hf"] + (["gap", "emo", "q"] if sb >= 1 else [])
+    vals_only = ["Etot", "Hf", "gap", "emo", "q"]
+    fd_names = [n for n in ("g_sp", "h_sp", "g_pp", "U_ss") if n in names]
+    for rnd in range(1, 4):
+        try:
+            outp = _energy(Z, X, q, m, sett(), dict(theta))
+        except Exception as exc:
+            viol.append({"clause": "train-evaluation-raised", "mech": None,
+                         "detail": {"round": rnd, "exception": ("%s: %s" % (type(exc).__name__, exc))[:300]}})
+            break
+        if outp["notconverged"]:
+            return {"ineligible": "SCF not converged in round %d" % rnd}
+        if cvec is None:
+            cvec = {"emo": torch.tensor(g.normal(size=outp["norb"])), "q": torch.tensor(g.normal(size=nat))}
+        scp = scal(outp)
+        vdir = {n: theta[n].detach().abs().clamp_min(0.0) * torch.tensor(g.normal(size=tuple(base[n].shape))) for n in names}
+        gp = {}
+        for k in outs:
+            gr = torch.autograd.grad(scp[k], [theta[n] for n in names], retain_graph=True, allow_unused=True)
+            gp[k] = {n: (None if gi is None else float((gi.detach() * vdir[n]).sum())) for n, gi in zip(names, gr)}
+        ghf = torch.autograd.grad(scp["Hf"], [theta[n] for n in names], allow_unused=True)
+        if rnd > 1:
+            C["evaluations_after_inplace_update_of_persistent_leaves"] += 1
+            # (a) brand-new tensors with the same values
+            fresh = {n: theta[n].detach().clone().requires_grad_(True) for n in names}
+            outf = _energy(Z, X, q, m, sett(), dict(fresh))
+            if outf["notconverged"]:
+                return {"ineligible": "fresh-tensor evaluation not converged"}
+            scf_ = scal(outf)
+            emo_ok = float(np.min(np.diff(np.sort(outf["e"].detach().numpy())))) >= MIN_SPACING
+            for k in vals_only:
+                d = abs(float(scp[k].detach()) - float(scf_[k].detach()))
+                tol = 1e-7 if k in ("Etot", "Hf") else 1e-6
+                upd("train_value_%s_vs_fresh_tensors" % k, d / tol)
+                C["train_values_compared"] += 1
+                if _bad(d, tol):
+                    viol.append({"clause": "train-value-differs-from-fresh-tensors/%s" % ("energy" if k in ("Etot", "Hf") else "density"),
+                                 "mech": None, "detail": {"round": rnd, "output": k, "persistent_leaves": float(scp[k].detach()),
+                                                          "fresh_tensors": float(scf_[k].detach()), "sb": sb, "method": method,
+                                                          "mol": case["mol"]}})
+            for k in outs:
+                if k in ("gap", "emo") and not emo_ok:
+                    continue
+                gr = torch.autograd.grad(scf_[k], [fresh[n] for n in names], retain_graph=True, allow_unused=True)
+                for n, gi in zip(names, gr):
+                    a = gp[k][n]
+                    b = None if gi is None else float((gi.detach() * vdir[n]).sum())
+                    if a is None and b is None:
+                        continue
+                    C["train_grad_compared"] += 1
+                    C["grad_compared"] += 1
+                    ncomp[0] += 1
+                    if k in DENSITY_OUTPUTS:
+                        C["grad_compared_density_outputs"] += 1
+                    ratio = 1e30 if (a is None or b is None) else _fin(abs(a - b) / _tol(k, sb, b))
+                    upd("train_grad_%s_vs_fresh_tensors_sb%d" % (k, sb), ratio)
+                    if _bad(ratio):
+                        viol.append({"clause": "train-grad-differs-from-fresh-tensors/%s" % ("energy" if k in ("Etot", "Hf") else "density"),
+                                     "mech": None, "detail": {"round": rnd, "output": k, "name": n, "persistent_leaves": a,
+                                                              "fresh_tensors": b, "ratio_to_bound": ratio, "sb": sb,
+                                                              "method": method, "mol": case["mol"]}})
+            # (b) finite differences (plain tensors) for a few names
+            cur = {n: theta[n].detach().clone() for n in names}
+            for n in fd_names:
+                ests = []
+                ok = True
+                for h in FD_STEPS:
+                    vv = []
+                    for sgn in (1, -1):
+                        t = {k2: cur[k2].clone() for k2 in names}
+                        t[n] = cur[n] + sgn * h * vdir[n]
+                        o = _energy(Z, X, q, m, _sett(method, names, 0, conv), t)
+                        C["fd_energy_evaluations"] += 1
+                        if o["notconverged"]:
+                            ok = False
+                            break
+                        vv.append({k2: float(v.detach()) for k2, v in scal(o).items()})
+                    if not ok:
+                        break
+                    ests.append({k2: (vv[0][k2] - vv[1][k2]) / (2 * h) for k2 in vv[0]})
+                if not ok:
+                    continue
+                for k in outs:
+                    if k in ("gap", "emo") and not emo_ok:
+                        continue
+                    r1 = (4 * ests[1][k] - ests[0][k]) / 3
+                    r2 = (4 * ests[2][k] - ests[1][k]) / 3
+                    if not (abs(r2 - r1) <= 0.2 * TOL_G * max(1.0, abs(r2))):
+                        C["fd_not_smooth_skipped"] += 1
+                        continue
+                    a = gp[k][n]
+                    C["grad_compared"] += 1
+                    C["train_grad_vs_fd_compared"] += 1
+                    ratio = 1e30 if a is None else _fin(abs(a - r2) / _tol(k, sb, r2))
+                    if a is None and not _bad(abs(r2), _tol(k, sb, r2)):
+                        continue
+                    upd("train_grad_%s_vs_fd_sb%d" % (k, sb), ratio)
+                    if _bad(ratio):
+                        viol.append({"clause": "train-grad-vs-fd/%s" % ("energy" if k in ("Etot", "Hf") else "density"),
+                                     "mech": None, "detail": {"round": rnd, "output": k, "name": n, "ad": a, "fd": r2,
+                                                              "ratio_to_bound": ratio, "sb": sb, "method": method, "mol": case["mol"]}})
+        # ---- in-place update of the persistent leaves (plain SGD step on Hf) ----
+        if rnd < 3:
+            if opt is None:
+                worst = max(float((gi.detach().abs() / theta[n].detach().abs().clamp_min(0.1)).max())
+                            for n, gi in zip(names, ghf) if gi is not None)
+                opt = torch.optim.SGD([theta[n] for n in names], lr=5e-3 / max(worst, 1e-12))
+            opt.zero_grad()
+            for n, gi in zip(names, ghf):
+                theta[n].grad = None if gi is None else gi.detach().clone()
+            opt.step()
+            C["inplace_optimizer_steps"] += 1
+    mon = {k: C[k] - mon0.get(k, 0) for k in C if C[k] - mon0.get(k, 0)}
+    seen, keep = {}, []
+    for v in viol:
+        seen[v["clause"]] = seen.get(v["clause"], 0) + 1
+        if seen[v["clause"]] <= 2:
+            keep.append(v)
+    return {"nontrivial": ncomp[0] > 0, "violations": keep, "margins": margins, "monitors": mon,
+            "cells": ["train/%s/sb%d" % (method, sb)],
+            "obs": {"names": names, "worst": margins, "n_violations_total": len(viol),
+                    "max_relative_parameter_change_per_step": 5e-3}}
+
+
 def run_case(case):
     setup_worker()
     if _W["missing"]:
@@ -1436,6 +1603,8 @@ def run_case(case):
         res = _run_hessian(case)
     elif kind == "repeat":
         res = _run_repeat(case)
+    elif kind == "train":
+        res = _run_train(case)
     else:
         return {"harness_error": "unknown case kind %r" % kind}
     # invariant-at-hook results gathered by the additive-term wrappers while this case ran
